@@ -27,15 +27,16 @@ PKG = 'acme.rt.v1'
 MODULE = 'acme.rt_v1'
 U = 512000          # ticks per second, as in Retry.tla
 NO = -1
-SERVICES = {f'{PKG}.Rt': dict(name='Rt', snake='rt', methods=['Get', 'BatchGet', 'GetMore', 'Put', 'Drop', 'Scan', 'Poll', 'Touch']),
+SERVICES = {f'{PKG}.Rt': dict(name='Rt', snake='rt', methods=['Get', 'BatchGet', 'GetMore', 'Put', 'Drop', 'Scan', 'Poll', 'Touch', 'Upload', 'Chat']),
             f'{PKG}.RtAdmin': dict(name='RtAdmin', snake='rt_admin', methods=['Get', 'Put'])}
 SNAKE = dict(Get='get', BatchGet='batch_get', GetMore='get_more', Put='put', Drop='drop', Scan='scan', Poll='poll',
-             Touch='touch')
+             Touch='touch', Upload='upload', Chat='chat')
 
 
 def carrier_api(rules=None):
     """rules = {'body': [sel..], 'delete': [sel..]} as printed by Retry.tla (HTTPRULES): methods bound with a request
-    body (post, body "*") / with DELETE; every other method is a GET without body.  None: no http rules (grpc only)."""
+    body (post, body "*") / with DELETE, 'cstream' / 'bidi': client-streaming / bidirectional methods (no http rule);
+    every other method is a unary GET without body.  None: unary methods without http rules."""
     msgs = [dict(name='Item', fields=[dict(name='name'), dict(name='id', type='int32')]),
             dict(name='Req', fields=[dict(name='name'), dict(name='note')])]
     svcs = []
@@ -45,6 +46,11 @@ def carrier_api(rules=None):
             md = dict(name=m, **{'in': 'Req', 'out': 'Item'})
             if rules is not None:
                 sel = dict(svc=full, meth=m)
+                if sel in rules['cstream'] or sel in rules['bidi']:
+                    md['cs'] = True
+                    md['ss'] = sel in rules['bidi']
+                    methods.append(md)
+                    continue
                 uri = '/v1/%s/{name=items/*}:%s' % (s['snake'], SNAKE[m])
                 if sel in rules['body']:
                     md['http'] = [dict(verb='post', uri=uri, body='*')]
@@ -136,12 +142,12 @@ def _init_worker():
     gen.enable_trace()
 
 
-def _request():
+def _request(rules):
     """CodeGeneratorRequest of the carrier API with exactly the transitive imports, as protoc would pass them."""
     global _REQ
     if _REQ is None:
-        api = carrier_api()
-        api['files'][0]['std_deps'] = ['google/api/client.proto']
+        api = carrier_api(rules)
+        api['files'][0]['std_deps'] = ['google/api/client.proto', 'google/api/annotations.proto']
         req = absapi.build_request(api, '')
         by = {f.name: f for f in req.proto_file}
         keep = set()
@@ -160,11 +166,11 @@ def _request():
     return _REQ
 
 
-def _resolve_chunk(cfgs):
+def _resolve_chunk(cfgs, rules):
     """real Options.build + API.build (pass 2: _get_retry_and_timeout) for each config; no rendering."""
     from gapic.schema import api as gapi
     from gapic.utils import Options
-    req = _request()
+    req = _request(rules)
     out = []
     with gen.scratch() as work:
         path = os.path.join(work, 'retry.json')
@@ -256,11 +262,13 @@ def ovr_key(o):
 
 def run_key(c, mode):
     mode = {'sync': 'grpc-sync', 'async': 'grpc-async'}.get(mode, mode)
+    if c['sel']['meth'] in ('Upload', 'Chat'):
+        mode += '-stream'
     return (f"run:table{c['cid']}/{c['sel']['svc'].split('.')[-1]}.{c['sel']['meth']}/{mode}/{ovr_key(c['ovr'])}/"
             f"{'>'.join(c['script']) or 'OK'}/phi={c['jit'][0]}:{c['jit'][1]}")
 
 
-SPEC_MUTANTS = ['rest_no_body_no_timeout', 'service_level', 'suffix_match', 'any_service', 'last_match', 'no_deadline', 'ignore_override', 'no_cap',
+SPEC_MUTANTS = ['stream_no_default_retry', 'rest_no_body_no_timeout', 'service_level', 'suffix_match', 'any_service', 'last_match', 'no_deadline', 'ignore_override', 'no_cap',
                 'init_uncapped', 'stale_timeout', 'retry_all', 'check_after_sleep']
 
 
@@ -335,7 +343,7 @@ def _main(chk, args, pool):
         with ProcessPoolExecutor(WORKERS, initializer=_init_worker) as ex:
             # 2a. generation layer: enumerated configs through the real Options.build + API.build ------------------------
             chunks = [enum_cases[i:i + 40] for i in range(0, len(enum_cases), 40)]
-            fut_res = [ex.submit(_resolve_chunk, [c['cfg'] for c in ch]) for ch in chunks]
+            fut_res = [ex.submit(_resolve_chunk, [c['cfg'] for c in ch], rules) for ch in chunks]
             # 2b. table configs: full generation
             roots = {cid: os.path.join(work, f't{cid}', 'out') for cid in cids}
             for cid in cids:
@@ -383,7 +391,9 @@ def _main(chk, args, pool):
                          for c in mine[s::nsh]]
                 jobs.append((roots[cid], dict(api=api, module=MODULE, unit=U, reply=f'{PKG}.Item', request={'name': 'items/1'},
                                               services={k: {'class': v['name'], 'snake': v['snake']} for k, v in SERVICES.items()},
-                                              methods=SNAKE, cases=shard, modes=['sync', 'async', 'rest'])))
+                                              methods=SNAKE, cases=shard, modes=['sync', 'async', 'rest'],
+                                              streams=dict([(x['meth'], 'cs') for x in rules['cstream']] +
+                                                           [(x['meth'], 'bidi') for x in rules['bidi']]))))
         runs = []
         with ProcessPoolExecutor(WORKERS) as ex:
             for ok, out, err in ex.map(_drive, jobs):
@@ -450,13 +460,15 @@ def _main(chk, args, pool):
                 '1-3 entries, 1-2 names per entry incl. service-level names, other service, suffix-related method names; every '
                 'duration spelling, multiplier, every canonical code alone and in pairs), non-trivial = names a method of the API; '
                 'call cases = table config x method x override x fault script over {2 retryable, 1 non-retryable} (length <= MaxLen) '
-                'x jitter {0,1/2,1} x {grpc sync, grpc asyncio, rest (fault codes in RestExact; http rule with / without body)}, non-trivial = more than one attempt, a deadline, or an error outcome; '
+                'x jitter {0,1/2,1} x {grpc sync, grpc asyncio, rest (fault codes in RestExact; http rule with / without body)}; methods unary, client-streaming, bidi; non-trivial = more than one attempt, a deadline, or an error outcome; '
                 'distinct by the full input')
     for t in [t for t in traces if t[1]['run']][:3] + [t for t in traces if not t[1]['run']][:2]:
         chk.sample(dict(key=t[0], trace=t[1]))
     chk.assumptions += [
         'unary methods over grpc / grpc_asyncio (loopback server) and rest (requests.Session.request replaced by a scripted recorder '
         'below AuthorizedSession; rest_asyncio not driven); api-core under virtual time (harness/vtime.py)',
+        'AsyncStreamNoRetry: over grpc_asyncio a client-streaming / bidi call is handed back before a status exists and is never '
+        'retried (modelled and named in Retry.tla, exempted in Inv_Surface; reported as a divergence, not asserted)',
         'RestStatusMapping: REST fault scripts use only the codes whose HTTP status api-core maps back to the exception class of the '
         'code (CANCELLED NOT_FOUND UNIMPLEMENTED INTERNAL UNAVAILABLE); for the other 11 codes the REST error is a parent class '
         '(e.g. 504 -> GatewayTimeout) that the rendered predicate does not list',
